@@ -48,6 +48,18 @@ fn with_runs(tag: &DynTag, rng: &mut Rng) -> DynTag {
     }
     match &tag.v { DynVal::M(Master::Full(c)) => { let mut v = Vec::new(); kids_of(c, rng, &mut v); DynTag { id: tag.id, v: DynVal::M(Master::Full(v)) } } _ => tag.clone() }
 }
+/// the same calls with size options on (some) End calls - the unknown-size option directly or through the deprecated call,
+/// or a width: options say how a tag is started, an End takes none of them
+fn optioned_ends(ops: &[WOp], rng: &mut Rng) -> Vec<WOp> {
+    ops.iter().map(|o| match o {
+        WOp::Tag { tag, .. } if matches!(tag.v, DynVal::M(Master::End)) => match rng.below(4) {
+            0 => WOp::Tag { tag: tag.clone(), width: 0, unknown: true },
+            1 => WOp::StartUnknownDeprecated { tag: tag.clone() },
+            2 => WOp::Tag { tag: tag.clone(), width: *rng.pick(&[1usize, 2, 8]), unknown: false },
+            _ => o.clone(),
+        },
+        x => x.clone() }).collect()
+}
 fn runs_ops(ops: &[WOp], rng: &mut Rng) -> Vec<WOp> {
     ops.iter().map(|o| match o { WOp::Tag { tag, width, unknown } => WOp::Tag { tag: with_runs(tag, rng), width: *width, unknown: *unknown }, x => x.clone() }).collect()
 }
@@ -189,6 +201,7 @@ pub fn present(out: &mut Out, rng: &mut Rng, count: usize) {
             let mut ops = ops_of(&doc, &f, false); ops.push(if rng.chance(1, 2) { WOp::Flush } else { WOp::IntoInner });
             run_writer(out, &format!("full:{sub:b}"), &ops, rand_sink(rng));
             if rng.chance(1, 2) { let r = runs_ops(&ops, rng); run_writer(out, &format!("runs:{sub:b}"), &r, rand_sink(rng)); }
+            if rng.chance(1, 2) { let r = optioned_ends(&ops, rng); run_writer(out, &format!("ends:{sub:b}"), &r, rand_sink(rng)); }
         }
         out.ev(json!({"ev":"end"}));
         // (b) deprecated unknown-size call = option-based one
@@ -201,6 +214,27 @@ pub fn present(out: &mut Out, rng: &mut Rng, count: usize) {
             run_writer(out, "option", &a, vec![]);
             run_writer(out, "deprecated", &bb, rand_sink(rng));
             out.ev(json!({"ev":"end"}));
+        }
+        // (d) one Full item with the unknown-size option
+        {
+            let pick = rng.pick(&masters).clone();
+            let f = move |p: &[usize]| p == pick.as_slice();
+            let mut ops = ops_of(&doc, &f, false);
+            let dep = rng.chance(1, 2);
+            let mut hit = false;
+            for o in ops.iter_mut() {
+                if hit { break; }
+                if let WOp::Tag { tag, .. } = o { if matches!(tag.v, DynVal::M(Master::Full(_))) { hit = true; let t2 = tag.clone(); *o = if dep { WOp::StartUnknownDeprecated { tag: t2 } } else { WOp::Tag { tag: t2, width: 0, unknown: true } }; } }
+            }
+            if hit {
+                ops.push(WOp::Flush);
+                begin(out, &mut n, &s, "full_unknown", json!({}));
+                let (dest, _) = run_writer(out, "plain", &base, vec![]);
+                readback(out, "plain", &dest, false);
+                let (dest, _) = run_writer(out, "opt", &ops, rand_sink(rng));
+                readback(out, "opt", &dest, false);
+                out.ev(json!({"ev":"end"}));
+            }
         }
         // (c) size options: widths and unknown size affect size fields only
         begin(out, &mut n, &s, "options", json!({}));
@@ -258,7 +292,18 @@ fn failing_call(rng: &mut Rng, s: &Schema, chain: &[u64]) -> Option<WOp> {
     let leaves: Vec<&dynspec::Entry> = s.entries.iter().filter(|e| e.ty != TagDataType::Master).collect();
     let masters: Vec<&dynspec::Entry> = s.entries.iter().filter(|e| e.ty == TagDataType::Master).collect();
     let mk = |rng: &mut Rng, e: &dynspec::Entry| -> DynTag { gen::to_tag(&Node::leaf(e.id, gen::rand_val(rng, e.ty, false, false).0)) };
-    match rng.below(13) {
+    match rng.below(15) {
+        13 | 14 => { // a Full item that would be fine - but with the unknown-size option (option-based or deprecated call)
+            let ok: Vec<&&dynspec::Entry> = masters.iter().filter(|e| gen::matches(&e.path, chain)).collect();
+            if ok.is_empty() { return None; }
+            let m = **rng.pick(&ok);
+            let mut ch = chain.to_vec(); ch.push(m.id);
+            let good: Vec<&dynspec::Entry> = gen::allowed_children(s, &ch).into_iter().filter(|e| e.ty != TagDataType::Master).collect();
+            let mut kids: Vec<DynTag> = Vec::new();
+            for _ in 0..rng.below(3) { if !good.is_empty() { let e = *rng.pick(&good); kids.push(mk(rng, e)); } }
+            let tag = DynTag { id: m.id, v: DynVal::M(Master::Full(kids)) };
+            Some(if rng.chance(1, 2) { WOp::Tag { tag, width: 0, unknown: true } } else { WOp::StartUnknownDeprecated { tag } })
+        }
         10 | 11 | 12 => { // Full master whose children end the master itself (and what was open before), or leave a child open
             let ok: Vec<&&dynspec::Entry> = masters.iter().filter(|e| gen::matches(&e.path, chain)).collect();
             if ok.is_empty() { return None; }
@@ -357,12 +402,12 @@ pub fn calls(out: &mut Out, rng: &mut Rng, count: usize) {
         if i % 2 == 0 { let flat = gen::flat_index(&doc); let want: Vec<bool> = (0..flat.len()).map(|_| rng.chance(1, 2)).collect(); gen::assign_unknown(&mut doc, &s, &want); }
         let fullset: Vec<bool> = (0..64).map(|_| rng.chance(1, 4)).collect();
         let pick_full = move |p: &[usize]| fullset[(p.iter().sum::<usize>() + p.len() * 7) % 64];
-        let valid = { let v = ops_of(&doc, &pick_full, false); if i % 3 == 1 { runs_ops(&v, rng) } else { v } };
+        let valid = { let v = ops_of(&doc, &pick_full, false); if i % 3 == 1 { runs_ops(&v, rng) } else if i % 3 == 2 { optioned_ends(&v, rng) } else { v } };
         // chain of open masters before each op of the valid sequence
         let mut chains: Vec<Vec<u64>> = Vec::new(); let mut ch: Vec<u64> = Vec::new();
         for op in &valid {
             chains.push(ch.clone());
-            match op { WOp::Tag { tag, .. } => match &tag.v { DynVal::M(Master::Start) => ch.push(tag.id), DynVal::M(Master::End) => { ch.pop(); } _ => {} }, WOp::StartUnknownDeprecated { tag } => ch.push(tag.id), _ => {} }
+            match op { WOp::Tag { tag, .. } => match &tag.v { DynVal::M(Master::Start) => ch.push(tag.id), DynVal::M(Master::End) => { ch.pop(); } _ => {} }, WOp::StartUnknownDeprecated { tag } => match &tag.v { DynVal::M(Master::Start) => ch.push(tag.id), DynVal::M(Master::End) => { ch.pop(); } _ => {} }, _ => {} }
         }
         chains.push(ch.clone());
         // after_unknown_end[k]: the valid op before position k is the End of an unknown-size master (a raw tag written
@@ -372,7 +417,7 @@ pub fn calls(out: &mut Out, rng: &mut Rng, count: usize) {
           for op in &valid {
               let mut flag = false;
               match op { WOp::Tag { tag, unknown, .. } => match &tag.v { DynVal::M(Master::Start) => st.push(*unknown), DynVal::M(Master::End) => { flag = st.pop().unwrap_or(false); } _ => {} },
-                         WOp::StartUnknownDeprecated { .. } => st.push(true), _ => {} }
+                         WOp::StartUnknownDeprecated { tag } => match &tag.v { DynVal::M(Master::Start) => st.push(true), DynVal::M(Master::End) => { flag = st.pop().unwrap_or(false); } _ => {} }, _ => {} }
               after_unknown_end.push(flag);
           } }
         let mut with: Vec<WOp> = Vec::new(); let mut marks: Vec<bool> = Vec::new();
@@ -412,7 +457,9 @@ pub fn calls(out: &mut Out, rng: &mut Rng, count: usize) {
         let fin = if rng.chance(1, 2) { WOp::Flush } else { WOp::IntoInner };
         with.push(fin.clone()); marks.push(false);
         without.push(fin);
-        begin(out, &mut n, &s, "noop", json!({"inserted": marks, "raws": true}));
+        let optional: Vec<bool> = with.iter().zip(marks.iter()).map(|(o, m)| *m && match o {
+            WOp::Tag { tag, unknown: true, .. } | WOp::StartUnknownDeprecated { tag } => matches!(tag.v, DynVal::M(Master::Full(_))), _ => false }).collect();
+        begin(out, &mut n, &s, "noop", json!({"inserted": marks, "optional": optional, "raws": true}));
         run_writer(out, "with", &with, rand_sink(rng));
         run_writer(out, "without", &without, vec![]);
         out.ev(json!({"ev":"end"}));
@@ -437,7 +484,7 @@ pub fn flush_open(out: &mut Out, rng: &mut Rng, count: usize) {
         // cut where at least one master is open
         let mut depth = 0usize; let mut cuts: Vec<usize> = Vec::new();
         for (k, op) in first.iter().enumerate() {
-            match op { WOp::Tag { tag, .. } => match &tag.v { DynVal::M(Master::Start) => depth += 1, DynVal::M(Master::End) => depth -= 1, _ => {} }, WOp::StartUnknownDeprecated { .. } => depth += 1, _ => {} }
+            match op { WOp::Tag { tag, .. } => match &tag.v { DynVal::M(Master::Start) => depth += 1, DynVal::M(Master::End) => depth -= 1, _ => {} }, WOp::StartUnknownDeprecated { tag } => match &tag.v { DynVal::M(Master::Start) => depth += 1, DynVal::M(Master::End) => depth -= 1, _ => {} }, _ => {} }
             if depth > 0 { cuts.push(k + 1); }
         }
         if cuts.is_empty() { continue; }
